@@ -13,8 +13,12 @@ RULE = ('case = (device profile, server capability list, Manager method, argumen
         'catalogue of locally refused arguments (bad names/characters, non-strings, bad filters/configs). Vendor classes '
         '(harness/vendorgate.py): alu load_configuration (format x target x config x default_operation), alu get_configuration, '
         'h3c get_bulk_config (source x filter) x all 2^8 subsets, and every other third_party class (valid and locally refused '
-        'arguments) with and without :url, each through a Manager made with the vendor profile. Observed: exception '
-        'class, messages sent, sequence of capability tests, registration. distinct = distinct case; non-trivial = the call '
+        'arguments) with and without :url, each through a Manager made with the vendor profile. commit (standard, junos, sros '
+        'class): every combination of confirmed / timeout / persist / persist_id (/ comment, at_time, synchronize, check), '
+        'optional arguments given alone and empty strings, x all 2^8 subsets. Observed: exception '
+        'class, messages sent, sequence of capability tests, registration, and the capability-dependent constructs of every '
+        'message that reached the server (harness/wiregate.py: expat + RFC 6241/6243/5277 table), each of which must be '
+        'backed by an advertised capability whatever the call was. distinct = distinct case; non-trivial = the call '
         'has at least one documented dependency.')
 ASSUMES = ['mode.strip().lower() is computed by CPython and given to the model as the normalised mode (oracle input)',
            'lxml verdicts on names/characters, validated_element, urlparse verdicts are oracle inputs fixed per catalogue entry',
@@ -186,8 +190,13 @@ def build(spec):
             if confirmed and a.get('at_time') is not None: pre = 'NCClientError'
             if confirmed and a.get('timeout') == 'abc': post = 'ValueError'
             elif a.get('comment') == 'bad\x00': post = 'ValueError'
-        model = [6, {'std': 0, 'junos': 1, 'sros': 2}[vend], 1 if confirmed else 0, optexn(pre), optexn(post)]
-        needs = [':candidate'] + ([':confirmed-commit'] if confirmed else [])
+        # what request() branches on (CPython's verdicts on the arguments): timeout is not None, persist is not None, bool(persist_id)
+        tmo = a.get('timeout') is not None
+        per = vend != 'junos' and a.get('persist') is not None
+        pid = vend != 'junos' and bool(a.get('persist_id'))
+        model = [6, {'std': 0, 'junos': 1, 'sros': 2}[vend], 1 if confirmed else 0, int(tmo), int(per), int(pid), optexn(pre), optexn(post)]
+        # documented: a confirmed commit, and <persist-id> (the follow-up of a persistent confirmed commit), need :confirmed-commit
+        needs = [':candidate'] + ([':confirmed-commit'] if confirmed or pid else [])
         wf = pre is None and post is None; meth = 'commit'
     elif op == 'cancel_commit':
         pid = a.get('persist_id'); ex = 'ValueError' if pid == 'bad\x00' else None
@@ -294,17 +303,50 @@ def impl_run(case, b=None):
 
 def canon_impl(r):
     ev = [[0 if kind == 'assert' else 1, k] for kind, k in r['log']]
-    return dict(exc=r['exc'], nsent=len(r['sent']), checks=ev, registered=r['registered'])
+    return dict(exc=r['exc'], nsent=len(r['sent']), checks=ev, registered=r['registered'], wire=wire_codes(r))
+
+def wire_codes(r):
+    """codes (Gating.wire) of the capability-dependent constructs of the one message that was sent ([] when none was)"""
+    from harness import wiregate
+    if r['exc'] is not None or len(r['sent']) != 1: return []
+    try:
+        return wiregate.codes(wiregate.read(r['sent'][0])[0])
+    except Exception as e:      # not well-formed XML: C07's subject; here it simply does not match the model
+        return ['unreadable: %s' % type(e).__name__]
 
 def canon_model(v):
-    evs, out = v
+    evs, out, wire = v
     checks = [[e[0], e[1].decode('utf-8')] for e in evs if e[0] in (0, 1)]
     return dict(exc=None if out[0] == 0 else EXC_REV[out[1]], nsent=sum(1 for e in evs if e[0] == 3), checks=checks,
-                registered=sum(1 for e in evs if e[0] == 2))
+                registered=sum(1 for e in evs if e[0] == 2), wire=sorted(wire))
+
+def wire_judge(case, r):
+    """wire-level reading of the property, independent of the call and of the branch that built the request: every
+    capability-dependent construct of every message that reached the server is backed by an advertised capability"""
+    from harness import wiregate
+    for msg in r['sent']:
+        try:
+            cons, adv, wd = wiregate.read(msg)
+        except Exception:
+            continue                           # ill-formed XML is C07's subject
+        bad = wiregate.unbacked(cons, case['uris'], advertised)
+        if bad:
+            return ('the server did not advertise %s, yet the request carries %s: %s'
+                    % (sorted({k for _, k in bad}), sorted({c for c, _ in bad}), msg),
+                    'ungated_construct_on_wire', [], [list(x) for x in bad])
+        if wd is not None and advertised(case['uris'], ':with-defaults'):
+            ms = spec_wd_modes(case['uris'])
+            if ms is None or wd not in ms:
+                return ('with-defaults mode on the wire %r is not an advertised mode %r' % (wd, ms), 'wd_mode_sent_unnormalised', ms, wd)
+    return None
 
 def judge(case, b, r):
     """property oracle on the implementation: returns None or (what, sig, expected, actual)"""
     if case.get('no_attr'): return None        # outside the property's quantification (no capability set at all)
+    j = judge_call(case, b, r)
+    return j if j else wire_judge(case, r)
+
+def judge_call(case, b, r):
     exp = oracle(case['uris'], b)
     act = ('sent',) if r['exc'] is None else ('exc', r['exc'])
     if exp[0] == 'exc':
@@ -371,6 +413,28 @@ def core_calls():
     c.append(['ungated', dict(method='close_session')])
     return c
 
+def commit_calls():
+    """commit, the three classes: every combination of the arguments request() branches on, optional ones given alone,
+    empty strings (persist='' is not None; persist_id='' is false)"""
+    c = []
+    for conf in (False, True):
+        for tmo in (None, '60'):
+            for per in (None, 'tok'):
+                for pid in (None, 'tok'):
+                    c.append(['commit', dict(vendor='std', confirmed=conf, timeout=tmo, persist=per, persist_id=pid)])
+                    for com in (None, 'note <&>'):
+                        c.append(['commit', dict(vendor='sros', confirmed=conf, timeout=tmo, persist=per, persist_id=pid, comment=com)])
+            for at in (None, '12:00'):
+                for extra in (dict(), dict(comment='note', synchronize=True, check=True)):
+                    c.append(['commit', dict(vendor='junos', confirmed=conf, timeout=tmo, at_time=at, **extra)])
+        for vend in ('std', 'sros'):
+            c.append(['commit', dict(vendor=vend, confirmed=conf, persist='')])
+            c.append(['commit', dict(vendor=vend, confirmed=conf, persist_id='')])
+            c.append(['commit', dict(vendor=vend, confirmed=conf, persist='', persist_id='tok')])
+            c.append(['commit', dict(vendor=vend, confirmed=conf, persist='tok', persist_id='')])
+        c.append(['commit', dict(vendor='sros', confirmed=conf, comment='  ', persist_id='tok')])
+    return c
+
 def malformed_calls():
     """locally refused arguments, alone and in front of / behind a capability check"""
     c = []
@@ -404,6 +468,10 @@ def malformed_calls():
         c.append(['commit', dict(vendor='std', confirmed=conf, persist='bad\x00')])
         c.append(['commit', dict(vendor='std', confirmed=conf, persist_id='bad\x00')])
         c.append(['commit', dict(vendor='sros', confirmed=conf, persist='a', persist_id='b')])
+        c.append(['commit', dict(vendor='sros', confirmed=conf, timeout=60)])
+        c.append(['commit', dict(vendor='sros', confirmed=conf, persist='bad\x00')])
+        c.append(['commit', dict(vendor='sros', confirmed=conf, persist_id='bad\x00')])
+        c.append(['commit', dict(vendor='sros', confirmed=conf, comment='bad\x00', persist_id='tok')])
         c.append(['commit', dict(vendor='sros', confirmed=conf, comment='bad\x00')])
         c.append(['commit', dict(vendor='sros', confirmed=conf, comment='note <&>', timeout='5')])
         c.append(['commit', dict(vendor='junos', confirmed=conf, at_time='12:00')])
@@ -446,6 +514,10 @@ def gen_cases(ctx, rng, tier):
     for call in core:
         for uris in sets:
             cases.append(dict(profile=profile_for(call), uris=uris, call=call))
+    # (a2) commit argument combinations (std / junos / sros) x all 2^8 subsets, the URN form rotating with the subset
+    for call in commit_calls():
+        for mask in range(256):
+            cases.append(dict(profile=profile_for(call), uris=sets[3 * mask + mask % 3], call=call))
     # (b) malformed / argument-catalogue calls x the subsets of the capabilities they can depend on (others random)
     for call in mal:
         b = build(call); rel = relevant_mask(b)
@@ -508,7 +580,7 @@ def gen_cases(ctx, rng, tier):
     n = 2000 if tier == 'quick' else 60000
     pool = [f + a for f in (A, B) for a in ATOMS] + [PC_OFF, PC_RE, 'http://example.com/yang', A + 'xpath:1.0', B + 'startup:1.0',
             A + 'with-defaults:1.0' + rng.choice(WD_PARAMS), ':candidate', 'urn:ietf:params:netconf:base:1.1']
-    allc = core + mal
+    allc = core + mal + commit_calls()
     for _ in range(n):
         uris = [rng.choice(pool) for _ in range(rng.choice([0, 1, 2, 4, 6, 9, 12]))]
         call = rng.choice(allc)
@@ -549,6 +621,20 @@ def run_cases(ctx, cases, record=True):
         if j:
             what, sig, exp, act = j
             ctx.fail(json.loads(key_of(case)), what, sig=sig, expected=exp, actual=act)
+        if record and r['sent'] and not case.get('no_attr'):
+            advisory(ctx, case, r)
+
+def advisory(ctx, case, r):
+    """evidence only: constructs RFC 6241 ties to a capability ncclient documents no dependency for (datastore names, xpath)"""
+    from harness import wiregate
+    for msg in r['sent']:
+        try:
+            cons, adv, _ = wiregate.read(msg)
+        except Exception:
+            continue
+        for c in cons: ctx.hist('wire_construct', c)
+        for what, k in adv:
+            ctx.hist('rfc_only_construct', '%s %s' % (what, 'backed' if advertised(case['uris'], k) else 'not advertised'))
 
 def chars_micro(ctx):
     """xml_chars_ok (Model/Xml.v) vs lxml's verdict on single strings"""
